@@ -420,14 +420,22 @@ let op_realm opidx impl toks =
        | _ -> ())
   | _ -> ()
 
+let impl_all_lines : string list list ref = ref []     (* every observation line of the implementation for the current op *)
 let op_dynrealm opidx impl toks =
   match toks with
   | _cmd :: u1 :: u2 :: rest ->
       let users = u1 :: u2 :: rest in
       ignore (List.fold_left (fun (subs, k) u ->
+          if u = "expire" then (pr "obs %d dynseq %d expired\n" opidx k; (subs, k + 1)) else
           let subs', r = dyn_step subs (bytes_of_hex u) in
           pr "obs %d dynseq %d %s\n" opidx k (match r with Some a -> hex_of_bytes a | None -> "none");
           (subs', k + 1)) ([], 0) users);
+      (* whatever the history, a lookup argument the implementation hands to a new server is clean (C20) *)
+      List.iter (function
+          | [ "dynseq"; _; a ] when a <> "none" && a <> "expired" ->
+              let arg = bytes_of_hex a in
+              spec opidx "C20_sanitised" (arg <> [] && List.for_all realm_char_ok arg) a
+          | _ -> ()) !impl_all_lines;
       ignore impl
   | [ cmd; user ] ->
       let id = bytes_of_hex user in
